@@ -1235,6 +1235,34 @@ def check_C17(res):
                 return
     run_counts(res, STATUTORY, res.tier, res.seed, per, with_withdrawn=False, grid=False)
 
+    # "the report names unused ... options": an option the report calls unused must have had no effect - counting again without it
+    # gives the same report (apart from the header line that names it)
+    def per_unused(E, data, rule, opts, p, exc=None):
+        if exc is not None or not opts:
+            return
+        rep = E.report()
+        head = rep.split('Seats:')[0]
+        line = [ln for ln in head.splitlines() if ln.strip().startswith('Unused options:')]
+        if not line:
+            return
+        strip = lambda t: '\n'.join(l for l in t.splitlines() if not l.strip().startswith('Unused options:'))    # noqa
+        for k in [x.strip() for x in line[0].split(':', 1)[1].split(',')]:
+            if k not in opts:
+                continue
+            o2 = {kk: vv for kk, vv in opts.items() if kk != k}
+            try:
+                E2 = counted(data, rule, o2)
+            except Exception:
+                continue
+            res.evaluations += 1
+            if strip(E2.report()) != strip(rep):
+                res.violation('the report calls option %r unused, yet leaving it out changes the report (%s %s)' % (k, rule, opts), wit(data, rule, opts))
+                return
+    profs = small_profiles('quick', res.seed + 11, False, False)[:60 if res.tier == 'quick' else 600]
+    run_extra(res, profs, ['wigm', 'meek'], per_unused, 8 if res.tier == 'quick' else 120,
+              opts_list=({'display': 3}, {'arithmetic': 'fixed', 'precision': 6, 'display': 2}, {'arithmetic': 'rational', 'display': 4},
+                         {'arithmetic': 'guarded', 'precision': 6, 'guard': 4, 'display': 8}, {'colour': 7}, {'omega': 3, 'display': 5}))
+
 
 def check_C20(res):
     res.rule = ('each election is counted after 1-3 random other elections (other rules/arithmetics/precisions/displays) and again fresh: '
